@@ -262,3 +262,28 @@ def trace_summary(path, limit=60):
         elif k in ('wake', 'take', 'update_waker', 'lock', 'panic', 'drop'):
             out.append('%s: %s %s' % (e.get('ln'), k, fmt_loc(e['loc']) if e.get('loc') else ''))
     return out[:limit]
+
+
+def method_role(F, fn):
+    """'send' (takes a payload by value, or an own node of a send-queue entry type), 'receive' (its
+    return type carries a payload and it is not a send), else 'other' - by types, not by names"""
+    from facts import ty_mentions_param
+    has_payload = False
+    send_node = False
+    has_cx = False
+    for i in range(1, fn['arg_count'] + 1):
+        t = fn['locals'][i]['ty']
+        if t.get('k') == 'param':
+            has_payload = True
+        if t.get('k') == 'ref' and t['ty'].get('k') == 'adt' and t['ty']['path'] in NODE_ADTS:
+            d = t['ty']['args'][0]
+            if 'SendWaitQueueEntry' in d.get('str', ''):
+                send_node = True
+        if 'task::Context' in t.get('str', ''):
+            has_cx = True
+    role = 'other'
+    if has_payload or send_node:
+        role = 'send'
+    elif ty_mentions_param(fn['locals'][0]['ty']):
+        role = 'receive'
+    return role, has_cx
